@@ -327,6 +327,7 @@ class Interp:
         self.loop_lengths = []             # (token, iteration-count axis) of the loops being interpreted
         self.stmt_hook = None
         self.top_log = []          # (why, function, node) for primary unknowns (not propagated ones)
+        self.raise_log = []        # (function, Raise statement) executed on the interpreted paths
         self.index_checks = []     # (node, ok) subscripts whose index and axis both had a named space
         self.sub_axes = {}         # axis name -> axis name it is a prefix of (e.g. L -> Lmax)
         self.force_seeds = False
@@ -573,6 +574,7 @@ class Interp:
         if isinstance(st, (ast.Break, ast.Continue)):
             raise LoopSignal()
         if isinstance(st, ast.Raise):
+            self.raise_log.append((fr.qual if hasattr(fr, "qual") else None, st))
             raise ReturnSignal()
         if isinstance(st, ast.With):
             for i in st.items:
@@ -956,6 +958,12 @@ class Interp:
                     res = Num("b")
             elif isinstance(op, (ast.In, ast.NotIn)):
                 items = right.items if isinstance(right, (Tup, Lst)) else None
+                if isinstance(right, Dct) and right.default is None and isinstance(left, (StrV, Num)) and left.const is not None:
+                    # membership in a dictionary with literal keys: name in REGISTRY
+                    hit = left.const in right.items
+                    res = Num("b", const=hit if isinstance(op, ast.In) else not hit)
+                    left = right
+                    continue
                 if isinstance(left, StrV) and left.const is not None and items is not None and all(isinstance(x, StrV) and x.const is not None for x in items):
                     # a constant name tested against a literal collection of names: name in ("kl_ova", "mi")
                     hit = left.const in [x.const for x in items]
